@@ -126,3 +126,167 @@ def markets_change_obligation(run):
 
 
 obligation('C02', 'C02-MarketsChange authorisation and write-set of MarketsChange::execute')(markets_change_obligation)
+
+
+# ----------------------------------------------------------------------------------------------------------------- signature binding
+from vlib import loader
+from mirsym.engine import ok, err, some, none
+import re as _re
+
+
+def _orc(name, mk, log_args=()):
+    def h(ctx):
+        st = ctx.st
+        n = sum(1 for e in st.log if e[0] == 'oracle' and e[1] == name)
+        okv = z3.Bool(f'{name}_{n}')
+        st.log.append(('oracle', name, okv) + tuple(ctx.ex.deref_val(st, ctx.args[i]) for i in log_args))
+        return [(okv, (lambda s2: ok(mk(ctx, s2)))), (z3.Not(okv), (lambda s2: err(Obj('Error', kind='error'))))]
+    return h
+
+
+@obligation('C02', 'C02-S1 Transaction::try_from_raw (astria-core): a transaction is accepted only if the signature in the message verifies under the public key in the message over exactly the body bytes that are then decoded')
+def c02_s1(run):
+    SIG = z3.Function('ed25519_verify', z3.BitVecSort(256), z3.BitVecSort(256), z3.BitVecSort(256), z3.BoolSort())
+
+    def h_verify(ctx):
+        key, sig, msg = (ctx.ex.deref_val(ctx.st, x) for x in ctx.args[:3])
+        v = SIG(M.ident(key), M.ident(sig), M.ident(msg))
+        ctx.st.log.append(('verify', M.ident(key), M.ident(sig), M.ident(msg)))
+        return [(v, ok(())), (z3.Not(v), (lambda s2: err(Obj('Error', kind='error'))))]
+
+    def mk_from(tag):
+        def mk(ctx, s2):
+            src = ctx.ex.deref_val(s2, ctx.args[0])
+            o = Obj(tag, kind='opaque'); o.attrs['ident'] = M.ident(src)       # the parsed key / signature is a function of its bytes
+            return o
+        return mk
+
+    def h_body(ctx):
+        anyv = ctx.ex.deref_val(ctx.st, ctx.args[0])
+        okv = z3.Bool('body_decodes')
+        ctx.st.log.append(('decode_body', anyv))
+        o = Obj('astria_core::protocol::transaction::v1::TransactionBody', kind='opaque')
+        return [(okv, (lambda s2: ok(o))), (z3.Not(okv), (lambda s2: err(Obj('Error', kind='error'))))]
+    same = lambda ctx: [(None, ctx.ex.deref_val(ctx.st, ctx.args[0]))]
+    hooks = [(_re.compile(r'Signature as TryFrom<&\[u8\]>>::try_from$'), _orc('signature_wellformed', mk_from('Signature'))),
+             (_re.compile(r'VerificationKey as TryFrom<&\[u8\]>>::try_from$'), _orc('key_wellformed', mk_from('VerificationKey'))),
+             (_re.compile(r'VerificationKey::verify$'), h_verify), (_re.compile(r'TransactionBody::try_from_any$|TransactionBody as .*Protobuf>::try_from_any$'), h_body),
+             (_re.compile(r'^<(bytes::)?Bytes as Deref>::deref$|^<(bytes::)?Bytes as Clone>::clone$|as AsRef<\[u8\]>>::as_ref$'), same)]
+    ex = loader.load(['astria-core'], hooks=hooks, dep_adts=['tendermint'])
+    n_ok = 0
+    for fname in ('try_from_raw', 'try_from_raw_ref'):
+        cands = [n for n in ex.fns if n.endswith('::' + fname) and 'closure' not in n and (ex.impl_self(n) or (None, ''))[1] == 'Transaction' and (ex.impl_self(n) or ('',))[0] == 'Protobuf']
+        if len(cands) != 1:
+            raise Inconclusive(f'<Transaction as Protobuf>::{fname} not found: {cands}')
+        sigb = Obj('bytes::Bytes', kind='opaque'); sigb.attrs['ident'] = z3.BitVec('signature_bytes', 256)
+        keyb = Obj('bytes::Bytes', kind='opaque'); keyb.attrs['ident'] = z3.BitVec('public_key_bytes', 256)
+        val = Obj('bytes::Bytes', kind='opaque'); val.attrs['ident'] = z3.BitVec('body_bytes', 256)
+        anyv = B.struct(ex, 'pbjson_types::Any', value=val) if ex.adts.lookup('pbjson_types::Any') else None
+        if anyv is None:
+            anyv = Obj('pbjson_types::Any'); anyv.fields[(None, 1)] = val; anyv.fields[(None, 0)] = Obj('String', kind='opaque')
+        body = Obj('std::option::Option<pbjson_types::Any>'); body.discr = z3.If(z3.Bool('body_present'), z3.BitVecVal(1, 64), z3.BitVecVal(0, 64)); body.fields[('Some', 0)] = anyv
+        raw = B.struct(ex, 'astria_core::generated::astria::protocol::transaction::v1::Transaction', signature=sigb, public_key=keyb, body=body)
+        arg = raw if fname == 'try_from_raw' else B.cell(raw)
+        for i, p in enumerate(run.explore(ex, ex.start(cands[0], [arg]), allow_havoc=(r'^Arguments::|fmt::', r'TransactionError::'))):
+            lab = f'[{fname}, path {i}]'
+            if p.kind != 'return':
+                run.prove(f'no panic {lab}', p.pc, z3.BoolVal(False), detail=p.info); continue
+            run.sample({'fn': fname, 'path': i, 'result': p.result.discr, 'verifies': len([e for e in p.log if e[0] == 'verify'])})
+            if p.result.discr != 'Ok':
+                continue
+            n_ok += 1
+            vs = [e for e in p.log if e[0] == 'verify']
+            tx = ex.deref_val(p, p.result.fields[('Ok', 0)])
+            vk = ex.deref_val(p, B.fld(ex, p, tx, 'verification_key', 'VerificationKey'))
+            bb = ex.deref_val(p, B.fld(ex, p, tx, 'body_bytes', 'Bytes'))
+            dec = [e for e in p.log if e[0] == 'decode_body']
+            decoded_val = None
+            if dec:
+                a_ = dec[0][1]
+                decoded_val = ex.deref_val(p, B.fld(ex, p, a_, 'value', 'Bytes')) if ex.adts.lookup('pbjson_types::Any') else ex.deref_val(p, a_.fields[(None, 1)])
+            run.prove(f'accepted => exactly one signature check, of the message\'s signature under the message\'s public key over the body bytes; the transaction keeps that key and those bytes, and the decoded body is built from the same bytes {lab}', p.pc,
+                      z3.And(z3.BoolVal(len(vs) == 1 and len(dec) == 1), SIG(z3.BitVec('public_key_bytes', 256), z3.BitVec('signature_bytes', 256), z3.BitVec('body_bytes', 256)),
+                             *( [vs[0][1] == z3.BitVec('public_key_bytes', 256), vs[0][2] == z3.BitVec('signature_bytes', 256), vs[0][3] == z3.BitVec('body_bytes', 256)] if vs else []),
+                             M.ident(vk) == z3.BitVec('public_key_bytes', 256), M.ident(bb) == z3.BitVec('body_bytes', 256),
+                             (M.ident(decoded_val) == z3.BitVec('body_bytes', 256)) if decoded_val is not None else z3.BoolVal(False)))
+    if not n_ok:
+        raise Inconclusive('vacuity: no accepting path')
+    run.require_reached(*run.cur.reach)
+
+
+@obligation('C02', 'C02-S2 CheckedTransaction::new: a transaction becomes executable only if it decoded and verified (Transaction::try_from_raw), its actions were checked with the address of ITS verification key as signer, its nonce is not below the account nonce, and its chain id is the chain\'s')
+def c02_s2(run):
+    def h_decode(ctx):
+        okv = z3.Bool('tx_decodes')
+        ctx.st.log.append(('oracle', 'decode', okv))
+        return [(okv, (lambda s2: ok(Obj('raw::Transaction', kind='opaque')))), (z3.Not(okv), (lambda s2: err(Obj('prost::DecodeError', kind='error'))))]
+
+    def h_try_from_raw(ctx):
+        okv = z3.Bool('tx_verifies')
+        ctx.st.log.append(('oracle', 'try_from_raw', okv))
+
+        def mk(s2):
+            t = Obj('astria_core::protocol::transaction::v1::Transaction', kind='opaque'); t.attrs['tag'] = 'tx'
+            return ok(t)
+        return [(okv, mk), (z3.Not(okv), (lambda s2: err(Obj('TransactionError', kind='error'))))]
+    VK = z3.BitVec('tx_verification_key', 256)
+    tx_chain = Obj('String', kind='opaque'); tx_chain.attrs['ident'] = z3.BitVec('tx_chain_id', 256)
+
+    def h_parts(ctx):
+        parts = B.struct(ctx.ex, 'TransactionParts', actions=M.new_vec('Vec<Action>', []), group=Obj('Group', kind='opaque'), params=Obj('TransactionParams', kind='opaque'), verification_key=VK)
+        return [(None, parts)]
+
+    def h_convert(ctx):
+        okv = z3.Bool('actions_check_ok')
+        ctx.st.log.append(('convert_actions', ctx.ex.deref_val(ctx.st, ctx.args[1]), okv))
+        return [(None, M.thunk_future(lambda ex, s2, fut: [(okv, (lambda s3: ok(M.new_vec('Vec<CheckedAction>', [])))), (z3.Not(okv), (lambda s3: err(Obj('CheckedTransactionInitialCheckError', kind='error'))))]))]
+
+    def h_str_ne(ctx):
+        a_, b_ = (ctx.ex.deref_val(ctx.st, x) for x in ctx.args[:2])
+        return [(None, M.ident(a_) != M.ident(b_))]
+    same = lambda ctx: [(None, ctx.ex.deref_val(ctx.st, ctx.args[0]))]
+    hooks = [(_re.compile(r'raw::Transaction as (prost::)?Message>::decode(::<.*>)?$|v1::Transaction as (prost::)?Message>::decode(::<.*>)?$'), h_decode),
+             (_re.compile(r'Transaction as ([\w:]+::)?Protobuf>::try_from_raw$|(^|::)Transaction::try_from_raw$'), h_try_from_raw),
+             (_re.compile(r'(^|::)Transaction::nonce$'), lambda ctx: [(None, z3.BitVec('tx_nonce', 32))]), (_re.compile(r'(^|::)Transaction::chain_id$'), lambda ctx: [(None, B.cell(tx_chain))]),
+             (_re.compile(r'(^|::)Transaction::into_parts$'), h_parts), (_re.compile(r'(^|::)Transaction::address_bytes$|Transaction as ([\w:]+::)?AddressBytes>::address_bytes$'), lambda ctx: [(None, B.cell(W_holder['W'].vk_addr(VK)))]),
+             (_re.compile(r'^(checked_transaction::)?convert_actions(::<.*>)?$'), h_convert), (_re.compile(r'Digest>::digest(::<.*>)?$|Sha256::digest'), lambda ctx: [(None, z3.BitVec('sha256_of_tx_bytes', 256))]),
+             (_re.compile(r'^(bytes::)?Bytes::len$'), lambda ctx: [(None, z3.BitVec('tx_len', 64))]), (_re.compile(r'^<(bytes::)?Bytes as Clone>::clone$|chain::Id::as_str$|^<str as ToString>::to_string$|^<String as Deref>::deref$|as AsRef<\[u8\]>>::as_ref$'), same),
+             (_re.compile(r'^<(std::string::)?String as PartialEq<(&)?str>>::(ne|eq)$|^<str as PartialEq>::(ne|eq)$|^<(std::string::)?String as PartialEq>::(ne|eq)$'), lambda ctx: [(None, (h_str_ne(ctx)[0][1]) if ctx.callee.endswith('ne') else z3.Not(h_str_ne(ctx)[0][1]))])]
+    W_holder = {}
+    ex, W = A.engine(extra_hooks=hooks)
+    W.vk_addr = lambda vk: z3.Function('vk_address', z3.BitVecSort(256), z3.BitVecSort(160))(vk)      # the chain-state model's address-of-key function
+    W_holder['W'] = W
+    cands = [n for n in ex.fns if n.endswith('::new') and 'closure' not in n and (ex.impl_self(n) or (None, ''))[1] == 'CheckedTransaction']
+    if len(cands) != 1:
+        raise Inconclusive(f'CheckedTransaction::new not found: {cands}')
+    MAXB = ex.named_const('MAX_TX_BYTES')
+    if MAXB is None:
+        raise Inconclusive('MAX_TX_BYTES not found')
+    run.bound(tx='arbitrary bytes; protobuf decoding, Transaction::try_from_raw (decided in C02-S1) and convert_actions are oracles that may fail', state='arbitrary symbolic chain state')
+    w0 = initial_world() if 'initial_world' in globals() else None
+    from vlib.seqworld import initial_world as iw
+    w0 = iw()
+    txb = Obj('bytes::Bytes', kind='opaque'); txb.attrs['tag'] = 'tx_bytes'
+    st = ex.start(cands[0], [txb, B.cell(Obj('S', kind='cell'))], world=dict(w0))
+    n_ok = 0
+    signer = W.vk_addr(VK)
+    for i, p in enumerate(run.explore(ex, st, poll=True, allow_havoc=(r'^Arguments::|fmt::', r'CheckedTransactionInitialCheckError::', r'TransactionId::new'))):
+        if p.kind != 'return':
+            run.prove(f'no panic [path {i}]', p.pc, z3.BoolVal(False), detail=p.info); continue
+        kind, r = A.poll_result(p)
+        conv = [e for e in p.log if e[0] == 'convert_actions']
+        orc = {e[1]: e[2] for e in p.log if e[0] == 'oracle'}
+        run.sample({'path': i, 'result': kind, 'oracles': list(orc), 'convert_calls': len(conv)})
+        if kind != 'Ok':
+            continue
+        n_ok += 1
+        ct = ex.deref_val(p, r.fields[('Ok', 0)])
+        cvk = B.fld(ex, p, ct, 'verification_key', 'VerificationKey')
+        cbytes = ex.deref_val(p, B.fld(ex, p, ct, 'tx_bytes', 'Bytes'))
+        run.prove(f'accepted => size within the limit, decoded, verified, nonce >= the signer\'s account nonce, actions checked against the signer derived from the transaction\'s own key, chain id equal; the checked transaction carries that key and the original bytes [path {i}]', p.pc,
+                  z3.And(z3.ULE(z3.BitVec('tx_len', 64), MAXB), orc.get('decode', z3.BoolVal(False)), orc.get('try_from_raw', z3.BoolVal(False)),
+                         z3.UGE(z3.BitVec('tx_nonce', 32), z3.Select(w0['nonce'], signer)), z3.BoolVal(len(conv) == 1), *( [conv[0][1] == signer, conv[0][2]] if conv else []),
+                         z3.BitVec('tx_chain_id', 256) == z3.BitVec('chain_id', 256), cvk == VK, z3.BoolVal(isinstance(cbytes, Obj) and cbytes.attrs.get('tag') == 'tx_bytes')))
+    if not n_ok:
+        raise Inconclusive('vacuity: no accepting path')
+    run.require_reached(*run.cur.reach)
